@@ -13,9 +13,73 @@ def check(ctx, stream, orig_frame, mutated, note):
     return out, inp
 
 
+def through_lan(ctx, rng, version, frame, mutated, note):
+    """the same alterations as the device's answer to a real `LAN.send` (virtual-time loop, simulated device); on V3 the
+    altered V2 packet travels inside a VALID encrypted V3 response, so only the V2 signature can reject it.  The exchange
+    must end in a protocol error / timeout, or return exactly the frame the device sent - never another frame."""
+    import simdev
+    import vloop
+    from props import c09
+    from msmart.device.AC.device import AirConditioner as AC
+    from msmart.lan import ProtocolError
+    from common import lan_of
+    token, key = c09.rb(rng, 64), c09.rb(rng, 32)
+    dev = simdev.SimDevice(version=version, device_id=77, token=token if version == 3 else None,
+                           key=key if version == 3 else None)
+    result = {}
+
+    def custom(d, tr, info):
+        sk = d.conns[tr.cid].get("session_key") or bytes(32)
+        tr.deliver(0.05, mutated if version == 2 else c09.v3_wrap(sk, 3, 0, mutated))
+
+    async def scenario(loop, net):
+        net.add_tcp("1.2.3.4", 6444, dev)
+        ac = AC(ip="1.2.3.4", port=6444, device_id=77)
+        try:
+            if version == 3:
+                await ac.authenticate(token, key)
+            dev.script = [("custom", custom)]
+            r = await lan_of(ac).send(b"\xaa\x0b\xac\x00\x00\x00\x00\x00\x00\x03\x41\x05", retries=1)
+            result["out"] = [hx(x) for x in r]
+        except ProtocolError:
+            result["out"] = "err:protocol"
+        except TimeoutError:
+            result["out"] = "err:timeout"
+        except Exception as e:  # noqa
+            result["out"] = "err:py:" + type(e).__name__
+    vloop.run(scenario)
+    out = result.get("out")
+    stream = f"lan_v{version}"
+    inp = {"frame": hx(frame), "packet": hx(mutated), "note": note, "version": version}
+    ok = out in ("err:protocol", "err:timeout") or (isinstance(out, list) and all(x == hx(frame) for x in out))
+    if not ok:
+        ctx.violate(stream, inp, out, "protocol error / timeout, or only the original frame",
+                    "an altered V2 packet delivered through a live connection produced a frame the device never sent")
+    ctx.count(f"{stream}:{out if isinstance(out, str) else 'frames'}")
+    ctx.case(stream, key=(version, hx(mutated)), sample={"note": note, "outcome": str(out)[:40]})
+
+
+def lan_streams(ctx, rng, thorough):
+    import msmart.lan as lan
+    for n in ((35,) if not thorough else (0, 16, 35, 100)):
+        frame = bytes(rng.randrange(256) for _ in range(n))
+        pkt = lan._Packet.encode(rng.randrange(2 ** 48), frame)
+        for version in (2, 3):
+            through_lan(ctx, rng, version, frame, pkt, "unaltered")
+            for i in range(len(pkt)):
+                bits = range(8) if (thorough or i < 6 or i >= len(pkt) - 16) else [rng.randrange(8)]
+                for b in bits:
+                    m = bytearray(pkt)
+                    m[i] ^= 1 << b
+                    through_lan(ctx, rng, version, frame, bytes(m), f"bit {b} of byte {i}")
+            for k in sorted(set(rng.sample(range(len(pkt)), 12)) | {0, 5, 6, 39, 40, len(pkt) - 16, len(pkt) - 1}):
+                through_lan(ctx, rng, version, frame, pkt[:k], f"first {k} bytes")
+
+
 def run(ctx):
     rng = ctx.rng
     thorough = ctx.tier == "thorough"
+    lan_streams(ctx, rng, thorough)
     lens = [0, 1, 15, 16, 17, 31, 32, 33, 100, 255]
     lines, meta = [], []
     for n in lens:
@@ -72,6 +136,10 @@ def search(ctx):
 
 def replay(ctx, case):
     pkt = bytes.fromhex(case["input"]["packet"]) if case["input"]["packet"] != "-" else b""
+    if "version" in case["input"]:
+        fr = case["input"]["frame"]
+        through_lan(ctx, ctx.rng, case["input"]["version"], bytes.fromhex(fr) if fr != "-" else b"", pkt, case["input"]["note"])
+        print("through LAN.send:", "VIOLATED" if ctx.violations else "held", ctx.dist)
     print("impl :", lanimpl.v2_decode(pkt))
     if ctx.driver:
         print("model:", ctx.driver.ask(f"v2_decode data={hx(pkt)}"))
